@@ -16,7 +16,7 @@ T=$(env -u MATHY_CORE_VERIF /venv/bin/python -m pytest -q -p no:cacheprovider --
 case "$T" in *failed*|*error*) echo "TESTS-FAIL $(basename "$PATCH"): $T";; *) echo "tests: $T";; esac
 for C in "$@"; do
   S=$(date +%s)
-  OUT=$(VERIF_EVIDENCE_DIR="$TMP/evidence" VERIF_REPO="$TMP/repo" VERIF_SKIP_REPLAYS=1 VERIF_SEED="${VERIF_SEED:-1}" "$HERE/check" "$C" --tier quick 2>&1); RC=$?
+  OUT=$(VERIF_EVIDENCE_DIR="$TMP/evidence" VERIF_REPO="$TMP/repo" VERIF_SKIP_REPLAYS=1 VERIF_MAX_ROUNDS=1 VERIF_SEED="${VERIF_SEED:-1}" "$HERE/check" "$C" --tier quick 2>&1); RC=$?
   E=$(date +%s)
   case $RC in
     1) echo "CAUGHT $(basename "$PATCH") by $C in $((E-S))s: $(echo "$OUT" | grep -m1 bucket)";;
